@@ -198,7 +198,19 @@ def addr(payload):
                 loads = [dict(kind='imp', z=[7.0, 3.0], attach=[[None, ta], [None, tb]]),
                          dict(kind='imp', z=[11.0, -5.0], attach=[[pl], [rng.randrange(len(blocks[tb])), tb]])]
                 want_l2 = sorted([pl, blocks[tb][loads[1]['attach'][1][0]]])
+                if rng.random() < 0.6:
+                    # the same load once more on the same pulse, named in the per-object form: two attachments, both act
+                    for t_, bl in blocks.items():
+                        if pl in bl:
+                            loads[1]['attach'].append([bl.index(pl), t_]); want_l2 = sorted(want_l2 + [pl]); break
+                # a skin-effect load given for one object: every pulse with a half on that object carries it exactly once
+                tsk = rng.choice(full)
+                want_skin = sorted(int(p.idx) for p in mc0.pulses if any(int(s_.geobj.tag) == tsk for s_ in p.segs))
                 argv = gen.to_argv(dict(spec, sources=srcs, loads=loads))
+                if rng.random() < 0.7:
+                    argv = argv + ['--skin-effect-conductivity=3.7e7,%d' % tsk]
+                else:
+                    tsk = None
                 mc = M.main(argv, f_err=io.StringIO(), return_mininec=True)
                 if not isinstance(mc, int):
                     eff = {}
@@ -210,6 +222,28 @@ def addr(payload):
                                     src=[int(s_.idx) for s_ in mc.sources], want_src=want_src,
                                     load1=sorted(eff.get((7.0, 3.0), [])), want_load1=sorted(blocks[ta] + blocks[tb]),
                                     load2=sorted(eff.get((11.0, -5.0), [])), want_load2=want_l2)
+                    if tsk is not None:
+                        sk = [l_ for l_ in mc.loads if type(l_).__name__ == 'Skin_Effect_Load']
+                        o['cli']['skin'] = sorted(int(q.idx) for l_ in sk for q in l_.pulses); o['cli']['want_skin'] = want_skin; o['cli']['skin_tag'] = tsk
+                    # what the matrix got: the diagonal of the loaded matrix minus that of the same antenna without loads is, on every
+                    # pulse, the same constant times the sum of the impedances attached there (twice on a ground-connection pulse)
+                    try:
+                        mu = M.main([a for a in argv if not a.startswith(('--load', '--attach-load', '--skin-effect'))], f_err=io.StringIO(), return_mininec=True)
+                        mc.compute(); mu.compute()
+                        dz = np.diag(np.array(mc.Z)) - np.diag(np.array(mu.Z))
+                        exp = np.zeros(n_c, dtype=complex)
+                        for l_ in mc.loads:
+                            for q in l_.pulses:
+                                exp[int(q.idx)] += complex(l_.impedance(mc.f, q)) * (2 if q.ground.any() else 1)
+                        nz = [j for j in range(n_c) if abs(exp[j]) > 0]
+                        if nz:
+                            cs = [dz[j] / exp[j] for j in nz]
+                            c0 = sorted(cs, key=lambda v: abs(v))[len(cs) // 2]          # the median: the constant of the majority
+                            dev = [(abs(dz[j] - c0 * exp[j]) / abs(c0 * exp[j]), j) for j in nz]
+                            o['cli']['matrix_dev'] = [float(max(dev)[0]), int(max(dev)[1])]
+                            o['cli']['matrix_other'] = float(max([abs(dz[j]) / abs(c0 * exp[nz[0]]) for j in range(n_c) if j not in nz] or [0.0]))
+                    except (ValueError, FloatingPointError, ZeroDivisionError, np.linalg.LinAlgError):
+                        pass
                     # the option writer in per-object form, read back: the loads sit on the same pulses
                     t1 = mc.as_cmdline(load_by_geo=True)
                     mr = M.main(t1.split(), f_err=io.StringIO(), return_mininec=True)
